@@ -31,18 +31,21 @@ import (
 func init() { core.Register(&H{}) }
 
 type Req struct {
-	Body   string        `json:"body"`
-	Gzip   bool          `json:"gzip"`
-	Chunks []int         `json:"chunks"` // sizes of successive reads of the (possibly compressed) body; the rest comes in one read
-	EOFWithData bool     `json:"eof_with_data"` // the last read returns (n>0, io.EOF)
-	Delay  time.Duration `json:"delay"`
-	Client int           `json:"client"`
-	AbortAfter int       `json:"abort_after,omitempty"` // >0: the transport fails after this many wire bytes (client went away)
+	Body        string        `json:"body"`
+	Gzip        bool          `json:"gzip"`
+	Chunks      []int         `json:"chunks"`        // sizes of successive reads of the (possibly compressed) body; the rest comes in one read
+	EOFWithData bool          `json:"eof_with_data"` // the last read returns (n>0, io.EOF)
+	Delay       time.Duration `json:"delay"`
+	Client      int           `json:"client"`
+	AbortAfter  int           `json:"abort_after,omitempty"` // >0: the transport fails after this many wire bytes (client went away)
+	ContentType string        `json:"content_type,omitempty"`
+	Query       string        `json:"query,omitempty"` // raw query string of the URL
 }
 
 type Cfg struct {
 	Sim  simrt.Config `json:"sim"`
 	Reqs []Req        `json:"requests"`
+	Meta bool         `json:"meta,omitempty"` // the plugin is configured with meta templates (login, params, request_uuid)
 }
 
 func (c *Cfg) SimCfg() *simrt.Config { return &c.Sim }
@@ -111,8 +114,11 @@ func (h *H) Gen(rng *rand.Rand, tier, prop string) core.Cfg {
 		if wire > 2 && core.Chance(rng, 0.12) {
 			r.AbortAfter = core.Between(rng, 1, wire-1)
 		}
+		r.ContentType = core.Pick(rng, "", "", "application/json", "application/x-www-form-urlencoded", "text/plain")
+		r.Query = core.Pick(rng, "", "", "a=1&b=x", "pipeline=main")
 		c.Reqs = append(c.Reqs, r)
 	}
+	c.Meta = core.Chance(rng, 0.4)
 	return c
 }
 
@@ -173,12 +179,12 @@ func gz(s string) []byte {
 }
 
 type chunkReader struct {
-	data   []byte
-	sizes  []int
+	data        []byte
+	sizes       []int
 	eofWithData bool
-	closed bool
-	abortAfter int
-	sent   int
+	closed      bool
+	abortAfter  int
+	sent        int
 }
 
 func (c *chunkReader) Read(p []byte) (int, error) {
@@ -213,9 +219,9 @@ func (c *chunkReader) Read(p []byte) (int, error) {
 func (c *chunkReader) Close() error { c.closed = true; return nil }
 
 type respWriter struct {
-	hdr    http.Header
-	status int
-	body   bytes.Buffer
+	hdr            http.Header
+	status         int
+	body           bytes.Buffer
 	firstWriteStep int
 }
 
@@ -243,10 +249,10 @@ type inRec struct {
 }
 
 type ctl struct {
-	byG map[int][]inRec
+	byG    map[int][]inRec
 	active map[pipeline.SourceID]int // source id -> goroutine using it
-	o *core.Outcome
-	seq uint64
+	o      *core.Outcome
+	seq    uint64
 }
 
 func (c *ctl) In(sourceID pipeline.SourceID, sourceName string, offsets pipeline.Offsets, data []byte, isNewSource bool, meta metadata.MetaData) uint64 {
@@ -277,9 +283,9 @@ func (h *H) Run(cc core.Cfg, sim *simrt.Sim) *core.Outcome {
 	o := &core.Outcome{NonTrivial: map[string]bool{}, Probes: map[string]int{}}
 	rec := &ctl{byG: map[int][]inRec{}, active: map[pipeline.SourceID]int{}, o: o}
 	type result struct {
-		g    int
-		w    *respWriter
-		done bool
+		g      int
+		w      *respWriter
+		done   bool
 		lastIn int
 	}
 	results := make([]*result, len(cfg.Reqs))
@@ -291,7 +297,11 @@ func (h *H) Run(cc core.Cfg, sim *simrt.Sim) *core.Outcome {
 		if err != nil {
 			panic(err)
 		}
-		conf, err := pipeline.GetConfig(static, []byte(`{"address":"off"}`), map[string]int{"gomaxprocs": 1, "capacity": 16})
+		pcfg := `{"address":"off"}`
+		if cfg.Meta {
+			pcfg = `{"address":"off","meta":{"rid":"{{ .request_uuid }}","who":"{{ .login }}","from":"{{ .remote_addr }}"}}`
+		}
+		conf, err := pipeline.GetConfig(static, []byte(pcfg), map[string]int{"gomaxprocs": 1, "capacity": 16})
 		if err != nil {
 			panic(err)
 		}
@@ -329,7 +339,10 @@ func (h *H) Run(cc core.Cfg, sim *simrt.Sim) *core.Outcome {
 						wire = gz(r.Body)
 						hdr.Set("Content-Encoding", "gzip")
 					}
-					req := &http.Request{Method: http.MethodPost, URL: &url.URL{Path: "/"}, Header: hdr,
+					if r.ContentType != "" {
+						hdr.Set("Content-Type", r.ContentType)
+					}
+					req := &http.Request{Method: http.MethodPost, URL: &url.URL{Path: "/", RawQuery: r.Query}, Header: hdr, RemoteAddr: "10.0.0.7:4242",
 						Body: &chunkReader{data: wire, sizes: append([]int(nil), r.Chunks...), eofWithData: r.EOFWithData, abortAfter: r.AbortAfter}}
 					w := &respWriter{hdr: http.Header{}}
 					res := &result{g: simrt.CurG(), w: w}
